@@ -119,6 +119,14 @@ func genC06(t *rapid.T) C06Case {
 	if inCmd {
 		main = append(main, ragen.Line{K: ragen.KEnd})
 	}
+	// a second directive with another include file (its own definition of `w`) and the same exclude files:
+	// each exclusion is expanded with the definitions of the directive's own include file
+	if len(excl) > 0 && rapid.IntRange(0, 2).Draw(t, "second") == 0 {
+		defs2 := map[string]string{}
+		p.Files["include/g.ra"] = genWordFile(t, "g", defs2, true)
+		main = append(main, ragen.Line{K: ragen.KExcept, File: "g", Excl: excl})
+		lab["second-directive-same-exclude-files"] = true
+	}
 	if rapid.IntRange(0, 3).Draw(t, "tail") == 0 {
 		main = append(main, ragen.Line{K: ragen.KEntry, T: "tail"})
 	}
